@@ -193,6 +193,20 @@ func scalePass(cfg Config, mons map[string]bool, n int, scenario string) *Stats 
 			h = append(h, Op{Code: opMaintain}, push(0, "eoe"), Op{Code: opClose})
 			return h
 		})
+	case "terminator-at":
+		// (m) the terminating record is exactly the n-th record of its event (n-1 records before it): the event is complete
+		// and leaves in that call, wherever the position falls (positions kept in narrow integers wrap at 2^8 / 2^16)
+		for _, fin := range []string{"fin", "eoe"} {
+			fin := fin
+			mk(fmt.Sprintf("one event: %d records, then %s", n-1, fin), func() []Op {
+				h := []Op{push(1, "mid")}
+				for i := 1; i < n-1; i++ {
+					h = append(h, push(1, "path"))
+				}
+				h = append(h, push(1, fin), Op{Code: opMaintain}, push(2, "mid"), Op{Code: opClose})
+				return h
+			})
+		}
 	case "middle-insert":
 		// (h) n incomplete events with ONE number near the head missing, which arrives last: it belongs far
 		// from the tail of the sorted list (and not at its head); everything leaves in ascending order
@@ -465,6 +479,11 @@ func buildJobs(prop, tier string) []interface{} {
 		jobs = append(jobs, Job{Mode: "scale", Scenario: "middle-insert", N: w + 500, Cfg: Config{MaxInFlight: w + 1000, TimeoutTicks: farTimeout, Base: 1<<32 - 700, Offsets: []uint32{0}, Kinds: []string{"mid"}, MaxRecs: 3, PostClose: 1}})
 		jobs = append(jobs, Job{Mode: "scale", Scenario: "gaps-one-maintain", N: w + 500, Cfg: Config{MaxInFlight: w + 1000, TimeoutTicks: 2, Base: 5, Offsets: []uint32{0}, Kinds: []string{"mid"}, MaxRecs: 3, PostClose: 1}})
 	}
+	for _, w := range []int{256, 65536} {
+		for _, n := range []int{w - 1, w, w + 1, 2 * w, 3*w + 1} {
+			jobs = append(jobs, Job{Mode: "scale", Scenario: "terminator-at", N: n, Cfg: Config{MaxInFlight: 3, TimeoutTicks: farTimeout, Base: 5, Offsets: []uint32{0}, Kinds: []string{"mid"}, MaxRecs: 1 << 20, PostClose: 1}})
+		}
+	}
 	jobs = append(jobs, Job{Mode: "scale", Scenario: "records-sweep", N: 1100, Cfg: Config{MaxInFlight: 2, TimeoutTicks: 2, Base: 5, Offsets: []uint32{0}, Kinds: []string{"mid"}, MaxRecs: 1 << 20, PostClose: 1}})
 	jobs = append(jobs, Job{Mode: "scale", Scenario: "below-head", N: 3000, Cfg: Config{MaxInFlight: 5000, TimeoutTicks: farTimeout, Base: 1<<32 - 2000, Offsets: []uint32{0}, Kinds: []string{"mid"}, MaxRecs: 3, PostClose: 1}})
 	jobs = append(jobs, Job{Mode: "scale", Scenario: "below-head", N: 40, Cfg: Config{MaxInFlight: 100, TimeoutTicks: farTimeout, Base: 5, Offsets: []uint32{0}, Kinds: []string{"mid"}, MaxRecs: 3, PostClose: 1}})
@@ -590,6 +609,22 @@ func buildJobs(prop, tier string) []interface{} {
 		jobs = append(jobs, Job{Mode: "bfs", Cfg: Config{MaxInFlight: m, TimeoutTicks: farTimeout, Base: 1, Offsets: []uint32{0, 1, 9, 11, 99}, Kinds: []string{"midRaw", "finRaw", "eoeRaw"}, MaxRecs: 2, PostClose: 1}, MaxStates: maxStates})
 	}
 	jobs = append(jobs, Job{Mode: "bfs", Cfg: Config{MaxInFlight: 2, TimeoutTicks: farTimeout, Base: 504, Offsets: []uint32{0, 1, 5040 - 504, 50406 - 504}, Kinds: []string{"midRaw", "finRaw"}, MaxRecs: 2, PostClose: 1}, MaxStates: maxStates})
+	// a Stream that pushes a complete, lower-numbered event from inside a callback while other events are still
+	// undelivered (one goroutine: the order clause applies as stated - the new event is due before them)
+	for _, m := range []int{1, 2, 3} {
+		cfg := Config{MaxInFlight: m, TimeoutTicks: farTimeout, Base: 5, Offsets: []uint32{1, 2, 3}, Kinds: []string{"mid", "fin", "eoe"}, MaxRecs: 2, PostClose: 1, ReenterPushLow: true}
+		jobs = append(jobs, Job{Mode: "bfs", Cfg: cfg, MaxStates: maxStates})
+	}
+	jobs = append(jobs, Job{Mode: "bfs", Cfg: Config{MaxInFlight: 3, TimeoutTicks: 2, Base: 1<<32 - 2, Offsets: []uint32{1, 2, 3}, Kinds: []string{"mid", "fin"}, Ticks: []int{3}, MaxRecs: 2, PostClose: 1, ReenterPushLow: true}, MaxStates: maxStates})
+	// a caller that scribbles on the Sequence field of its struct once PushMessage has returned: the number the event
+	// is grouped and ordered by is the one it was pushed with
+	for _, c := range []Config{
+		{MaxInFlight: 2, Base: 5, MutateAfterPush: 3}, {MaxInFlight: 3, Base: 5, MutateAfterPush: 3},
+		{MaxInFlight: 3, Base: 1<<32 - 2, MutateAfterPush: 1 << 31}, {MaxInFlight: 4, Base: 1<<32 - 2, MutateAfterPush: 6},
+	} {
+		c.TimeoutTicks, c.Offsets, c.Kinds, c.MaxRecs, c.PostClose = farTimeout, []uint32{0, 1, 2, 3}, []string{"mid", "fin", "eoe"}, 2, 1
+		jobs = append(jobs, Job{Mode: "bfs", Cfg: c, MaxStates: maxStates})
+	}
 	// two Reassemblers in one process, each with the selected monitor
 	twinDepth := 6
 	if thorough {
